@@ -114,6 +114,40 @@ type Frame struct {
 	iterInfo map[ssa.Value]*iterState
 	curBlock *ssa.BasicBlock
 	curIdx   int
+	ord      map[ssa.Instruction]int
+	ordName  map[ssa.Instruction]string
+	locals   []localCell
+}
+
+// anchored checks the "//@ at <kind> <name>#n assert" clauses that name the
+// instruction being encoded.
+func (e *Enc) anchored(fr *Frame, kind string, ins ssa.Instruction, st *State, reach Term) {
+	if fr.con == nil || ins == nil {
+		return
+	}
+	for _, aa := range fr.con.Asserts {
+		if aa.Kind != kind {
+			continue
+		}
+		if kind == "call" {
+			name := fr.ordName[ins]
+			short := name
+			if i := strings.LastIndex(name, "."); i >= 0 {
+				short = name[i+1:]
+			}
+			if aa.Callee != name && aa.Callee != short {
+				continue
+			}
+		}
+		if aa.N != 0 && aa.N != fr.ord[ins] {
+			continue
+		}
+		ctx := e.frameCtx(fr, st, fr.curBlock, fr.curIdx, nil)
+		ctx.what = fmt.Sprintf("assert at %s %s#%d in %s", kind, aa.Callee, aa.N, contractName(fr.fn))
+		g := e.compileBool(ctx, aa.Clause.Expr)
+		o := e.addObl(fr, "assert", implies(reach, g), aa.Clause.Src, ins.Pos(), aa.Clause.Props)
+		o.Name = fmt.Sprintf("%s/assert@%s:%s#%d", contractName(e.top), kind, aa.Callee, fr.ord[ins])
+	}
 }
 
 type iterState struct {
@@ -180,6 +214,9 @@ func (e *Enc) get(st *State, key, sort string) Term {
 	name := key + "@entry"
 	decl := fmt.Sprintf("(declare-const %s %s)", name, sort)
 	switch key {
+	case "alloc":
+		// fresh references are negative; global cells have positive references
+		decl += fmt.Sprintf("\n(assert (<= %s 0))", name)
 	case "ghost.sends", "ghost.nilsends", "ghost.recvs", "ghost.closes":
 		// event counters start non-negative
 		decl += fmt.Sprintf("\n(assert (forall ((c Int)) (! (>= (select %s c) 0) :pattern ((select %s c)))))", name, name)
@@ -509,6 +546,34 @@ func (e *Enc) encodeBody(fr *Frame, st *State) ([]Val, *State, Term) {
 	defer func() { e.stack = e.stack[:len(e.stack)-1] }()
 
 	fr.analyze()
+	// static (source-order) ordinals of calls per callee and of selects, for
+	// "//@ at call f#n assert" / "//@ at select #n assert"
+	fr.ord = map[ssa.Instruction]int{}
+	fr.ordName = map[ssa.Instruction]string{}
+	if fr.con != nil && len(fr.con.Asserts) > 0 {
+		cnt := map[string]int{}
+		for _, b := range fn.Blocks {
+			for _, ins := range b.Instrs {
+				switch t := ins.(type) {
+				case *ssa.Select:
+					cnt["select"]++
+					fr.ord[ins] = cnt["select"]
+				case *ssa.Call:
+					ct := e.classify(t.Common(), nil)
+					name := ct.name
+					if ct.kind == "builtin" {
+						continue
+					}
+					if strings.HasPrefix(name, "dynamic:") {
+						name = "dynamic"
+					}
+					cnt[name]++
+					fr.ord[ins] = cnt[name]
+					fr.ordName[ins] = name
+				}
+			}
+		}
+	}
 	fr.vals = map[ssa.Value]Val{}
 	fr.reach = map[*ssa.BasicBlock]Term{}
 	fr.out = map[*ssa.BasicBlock]*State{}
